@@ -71,6 +71,13 @@ def run(P, rep, tier):
     rep.floor("C04.R2", 8)
     rep.floor("C04.R3", 6)
     rep.floor("C04.R4", 5)
+    # refinement against the pinned tree for every function the rules above looked at (rules/pinned.py)
+    import os as _os
+
+    if not _os.environ.get("MDSA_PINNED_GEN"):
+        from .pinned import refine
+
+        refine(P, rep, ctx, "C04")
 
 
 def r1_check_table(P, rep, ctx):
